@@ -120,6 +120,38 @@ theorem add_sub_inverse (a b c : Coins) (ha : Canon a) (hb : Canon b) (hrb : All
     refine sorted_nonzero_extL e a e1 ha.1 (fun c hc => by have := e2 c hc; omega) (fun c hc => by have := ha.2 c hc; omega) (fun d => ?_)
     have := e3 d; have := h3 d; simp only [amt_eq] at *; omega
 
+theorem sub_add_inverse (a b c : Coins) (ha : Canon a) (hb : Canon b) (hra : AllDecInRange a) (hrb : AllDecInRange b)
+    (h : DecCoins.sub a b = some c) : DecCoins.add c b = some a := by
+  obtain ⟨_, hsome⟩ := sub_spec a b ha hb hra hrb
+  obtain ⟨⟨c2, c3⟩, c4⟩ := hsome c h
+  simp only [amt_eq] at c4
+  unfold DecCoins.add
+  cases hs : DecCoins.safeAdd c b with
+  | none =>
+    exfalso
+    obtain ⟨x, hx, y, hy, hxy, hnone⟩ := (DecCoins.safeAdd_none_iffL c b c2 hb.1).1 hs
+    have e1 := amtL_of_mem c2 hx
+    have e2 := amtL_of_mem hb.1 hy
+    have e3 := c4 x.1
+    rw [e1] at e3
+    rw [hxy, e2, ← hxy] at e3
+    have hr : DecInRange (amtL a x.1) := by
+      by_cases h0 : amtL a x.1 = 0
+      · rw [h0]; unfold DecInRange; decide
+      · obtain ⟨z, hz, _, hz2⟩ := exists_of_amtL_ne_zero h0; rw [← hz2]; exact hra z hz
+    rw [decAdd_exact] at hnone
+    split at hnone
+    · cases hnone
+    · next hh =>
+      apply hh
+      have : x.2 + y.2 = amtL a x.1 := by omega
+      rw [this]; exact hr
+  | some e =>
+    obtain ⟨h1, h2, h3⟩ := DecCoins.safeAdd_specL c b e c2 hb.1 hs
+    congr 1
+    refine sorted_nonzero_extL e a h1 ha.1 h2 (fun c hc => by have := ha.2 c hc; omega) (fun d => ?_)
+    have := h3 d; have := c4 d; omega
+
 /-! ### MulDec / QuoDec and their truncating variants -/
 
 /-- the shared loop: on a set sorted by denomination the result is sorted, without zero amounts, and holds for
